@@ -45,6 +45,8 @@ inductive PyVal
   | obj (cls : String) (fields : List (String × PyVal))
   /-- not a Python value: what a local holds before its first assignment (reading it is `UnboundLocalError`) -/
   | unbound
+  /-- the singleton `NotImplemented` -/
+  | notImpl
   deriving Repr, Inhabited
 
 instance : Coe Bool PyVal := ⟨PyVal.bool⟩
@@ -568,6 +570,61 @@ def match_group (m k : PyVal) : M PyVal :=
     if 1 ≤ k ∧ k.toNat ≤ gs.length then pure (gs.getD (k.toNat - 1) .none) else throw indexError
   | _, _ => throw attributeError
 
+/-- `s.rpartition(c)` for a one-character separator: `(before, sep, after)` at the last occurrence, `("", "", s)` if none -/
+def str_rpartition (s sep : PyVal) : M PyVal :=
+  match s, sep with
+  | .str s, .str [c] =>
+    let rev := s.reverse
+    let afterRev := rev.takeWhile (· != c)
+    if afterRev.length == rev.length then pure (.tuple [.str [], .str [], .str s])
+    else pure (.tuple [.str (rev.drop (afterRev.length + 1)).reverse, .str [c], .str afterRev.reverse])
+  | .str _, .str _ => throw "PyRtUnsupported"
+  | .str _, _ => throw typeError
+  | _, _ => throw attributeError
+
+/-- `^([0-9]+)((?:a|b|c|rc)[0-9]+)$` with `search` (`$` also matches before a final newline) -/
+def rx_prefix (item : Str) : Option (List PyVal) :=
+  let item := if item.getLast? == some 10 then item.dropLast else item
+  let (d1, r) := spanDigits item
+  if d1.isEmpty then Option.none else
+  let rest : Option (Str × Str) :=
+    match r with
+    | 97 :: t => some ([97], t)
+    | 98 :: t => some ([98], t)
+    | 99 :: t => some ([99], t)
+    | 114 :: 99 :: t => some ([114, 99], t)
+    | _ => Option.none
+  match rest with
+  | Option.none => Option.none
+  | some (l, t) =>
+    let (d2, r2) := spanDigits t
+    if d2.isEmpty || !r2.isEmpty then Option.none else some [.str d1, .str (l ++ d2)]
+
+/-- `pattern.search(s)` for the compiled patterns (by pattern text) the selected functions use -/
+def re_search (pat : String) (s : PyVal) : M PyVal :=
+  match s with
+  | .str s =>
+    if pat == "^([0-9]+)((?:a|b|c|rc)[0-9]+)$" then
+      pure (match rx_prefix s with | some gs => .obj "re.Match" [("groups", .tuple gs)] | Option.none => .none)
+    else throw "PyRtUnsupported"
+  | _ => throw typeError
+
+/-- `m.groups()` -/
+def match_groups (m : PyVal) : M PyVal :=
+  match m with
+  | .obj "re.Match" [("groups", .tuple gs)] => pure (.tuple gs)
+  | _ => throw attributeError
+
+/-- the result of a rich-comparison method as the value of `a < b`: `NotImplemented` means the reflected method
+would be tried; for the classes of the selected functions that can only end in `TypeError` -/
+def cmpResult : PyVal → M PyVal
+  | .notImpl => throw typeError
+  | v => pure v
+/-- the same for `==` / `!=`: both sides declining falls back to identity, which is `False` / `True` for distinct objects -/
+def eqResult (dflt : Bool) : PyVal → PyVal
+  | .notImpl => .bool dflt
+  | v => v
+
 /-- `str(v)` for the values an f-string of the selected functions formats -/
 def format : PyVal → M Str
   | .str s => pure s
@@ -624,6 +681,7 @@ def className : PyVal → String
   | .none => "NoneType" | .bool _ => "bool" | .int _ => "int" | .str _ => "str"
   | .list _ => "list" | .tuple _ => "tuple" | .iter _ => "iterator"
   | .negInf => "NegativeInfinityType" | .posInf => "InfinityType" | .unbound => "<unbound>"
+  | .notImpl => "NotImplementedType"
 
 /-- `isinstance(v, (C1, C2, …))` by class name; `bool` is a subclass of `int` -/
 def isinstance (v : PyVal) (classes : List String) : Bool :=
